@@ -334,7 +334,7 @@ func (w *World) newPathState(wk *worker, prefix []int, opt Options) *pathState {
 		varIdx: map[string]int{}, covers: map[string]int{}, funcs: map[*ssa.Function]bool{},
 		choiceVals: map[string]int{},
 		maxSteps:   opt.MaxSteps, maxDepth: opt.MaxDepth,
-		files: map[string]value{}, failRead: map[string]bool{}, failWrite: map[string]bool{},
+		failRead: map[string]bool{}, failWrite: map[string]bool{},
 		oracle: opt.Oracle,
 	}
 	if ps.maxSteps <= 0 {
